@@ -33,6 +33,34 @@ def run_histories(chk, histories, relevant, label="exp", flavor="plain", sample=
     return merged
 
 
+def run_interleaved(chk, histories, relevant, label="exp2", flavor="plain"):
+    """Two exporter instances operated alternately on ONE thread (histories 2k and 2k+1, calls interleaved): each must
+    behave exactly as if it were alone - every per-instance trace is validated like any other execution."""
+    work = vlib.scratch(label)
+    if len(histories) % 2:
+        histories = histories[:-1]
+    hist = work / "histories.ndjson"
+    with open(hist, "w") as f:
+        for h in histories:
+            f.write(json.dumps(h) + "\n")
+    exe = vlib.build_driver("exp_driver", flavor)
+    nsh = min(vlib.NCPU // 2, max(1, len(histories) // 2))
+    files = []
+    cmds = []
+    for i in range(nsh):
+        fa, fb = work / f"exp2.{i}.a.ndjson", work / f"exp2.{i}.b.ndjson"
+        files += [fa, fb]
+        cmds.append([exe, "run2", hist, i, nsh, fa, fb])
+    for cmd, rc, out in vlib.run_parallel(cmds, timeout=1500, env={"VERIF_TMP": str(work)}):
+        if rc != 0:
+            raise vlib.Infra(f"exp_driver run2 failed rc={rc}: {out}")
+    merged = vlib.validate_traces("TraceExporter", files, constants={"XBug": "\"none\""}, timeout=2400, label=label + "tv", xmx="4g")
+    chk.add_traces(merged, relevant=relevant)
+    chk.extra["interleaved_instance_pairs"] = chk.extra.get("interleaved_instance_pairs", 0) + len(histories) // 2
+    shutil.rmtree(work, ignore_errors=True)
+    return merged
+
+
 def rng_for(chk, salt):
     return random.Random(chk.seed * 7919 + salt)
 
